@@ -121,12 +121,16 @@ class AbstractContainer(abstract.GeomdlBase):
 
         :getter: Gets the evaluated points of all contained geometries
         """
-        if not self._cache['evalpts']:
-            for elem in self._elements:
-                elem.delta = self._delta[0] if self._pdim == 1 else self._delta
-                evalpts = elem.evalpts
-                self._cache['evalpts'] += evalpts
-        return self._cache['evalpts']
+        # The elements cache their own evaluated points and reset them when they are edited. Caching the aggregate
+        # here as well would return stale points after an element is modified through its own reference.
+        delta = self._delta[0] if self._pdim == 1 else list(self._delta)
+        evalpts = []
+        for elem in self._elements:
+            elem_delta = elem.delta if self._pdim == 1 else list(elem.delta)
+            if elem_delta != delta:
+                elem.delta = delta
+            evalpts += elem.evalpts
+        return evalpts
 
     @property
     def bbox(self):
